@@ -261,6 +261,14 @@ pub fn run(out: &mut Out, seed: u64, thorough: bool) {
         (vec![0], 0x0100),       // ptype in the extension range
         (vec![2], 0x05FF),
     ];
+    // the protocol type equals the id of the last *optional* extension (never a final mandatory one)
+    for id in [0x0100u16, 0x0101, 0x01FF, 0x0200, 0x05FF] {
+        let dlen = 2 * ((id >> 8) as usize - 1);
+        let exts = vec![ExtSpec { id, data: vec![0x5A; dlen] }];
+        one(out, &mut rng, &exts, id, LA6, 10, 80, 0, "refused_same_id");
+        let exts2 = vec![ExtSpec { id: 0x0211, data: vec![1, 2] }, ExtSpec { id, data: vec![0x5A; dlen] }];
+        one(out, &mut rng, &exts2, id, LA3, 12, 80, 0, "refused_same_id");
+    }
     for (classes, ptype) in bad {
         let exts: Vec<ExtSpec> = classes.iter().map(|c| ext_of(*c, &mut rng)).collect();
         for mk in 0..2 {
